@@ -43,9 +43,14 @@ CLAIMED = {
         technique="deterministic simulation: simulated file objects/paths/locale with I/O fault injection at every write, read-side call and close; round-trip oracle on canonical forms",
         text="Pickle (protocols 0-5, via dumps, simulated streams, out-of-band buffers), copy/deepcopy/.copy() and savetxt->loadtxt (fmt/delimiter/header/comments, both spellings) for 0-d, size-1, single-term, constant, multi-dimensional and transposed/sliced arrays, through text and bytes streams (with/without encoding attribute) and str/PathLike paths routed to simulated files under a simulated locale. Per save an OSError is injected at EVERY write index the fault-free run made and at close (a save that returns normally must load back); per load at every read-side call (the load must raise or return the right polynomial). Header-less files must load as the plain array numpy gives.",
         note="Nothing is asserted about torn files. Save and load share one simulated locale. Only exceptions are injected (numpy ignores write()'s return value). bytes paths are not generated (numpy.savetxt rejects them). The FileSeam probes itself at every use (exit 2 if numpy moved the open() call sites)."),
+
+    "C20": dict(level="exploration", ref="DESIGN.md §4 C20",
+        technique="deterministic simulation: monomial journeys with large exponents through every stage, the text-file stage under the FileSeam (stream kind, locale, explicit encodings, write faults); exponent tuples as the oracle",
+        text="Polynomials with exponents from {0..600, powers of two +-1 up to 1e5, the byte/ASCII/latin-1/surrogate/BMP boundaries, byte pairs that form valid UTF-8} are carried through a seeded sequence of stages (raw structured view and back, alignment, *, **, derivative, evaluation, symbol swap, pickle, savetxt->loadtxt on text/bytes streams and paths under utf-8/latin-1/ascii locales, explicit save encodings and write faults); after each stage the stage raised or the (exponent tuple, coefficient) set equals the model. Range sweeps encode/decode every exponent of a window (thorough: the whole representable range) and multiply (sum c_a q0**a)*q0**b for every a+b<=600.",
+        note="A raising stage is a violation only below exponent 55 000 and outside the text stage. Symbol substitution is limited to exponents <= 300 (power is repeated multiplication). int64 coefficients; journeys whose model coefficients would overflow stop undecided."),
 }
 
-PENDING = {k: "check under construction in this session; will be claimed (see DESIGN.md verdict table)" for k in ["C15","C20"]}
+PENDING = {k: "check under construction in this session; will be claimed (see DESIGN.md verdict table)" for k in ["C15"]}
 
 NOT_APPLICABLE = {
     "C01": "ring arithmetic is a pure function of the operands: no schedule, clock, fault, stream or global history in any clause; its one environment dependence (unwritten coefficients) is decided under C12",
